@@ -30,7 +30,9 @@ import (
 	"time"
 
 	reuse "github.com/libp2p/go-reuseport"
+	"github.com/omec-project/upf-epc/logger"
 	"github.com/wmnsk/go-pfcp/message"
+	"go.uber.org/zap/zapcore"
 )
 
 type c11Event struct {
@@ -279,6 +281,9 @@ func (cw *c11World) snapshot(final bool) map[string]interface{} {
 }
 
 func c11Run(in c11In) (interface{}, error) {
+	// the logger serialises its writers: every Info line is a lock hand-over between goroutines, i.e. an
+	// incidental happens-before edge that hides races from the detector (and costs time)
+	logger.SetLogLevel(zapcore.ErrorLevel)
 	cw, err := c11NewWorld(in)
 	if err != nil {
 		return map[string]interface{}{"world_err": err.Error()}, nil
